@@ -49,7 +49,7 @@ Theorem undecomposed_bodies :
       ("constant.Int", "Ident", (2, 1)) ].
 Proof. vm_compute. reflexivity. Qed.
 
-Example table_size : List.length printers = 837 /\ 154 <= List.length asm_rest.
+Example table_size : List.length printers = 840 /\ 154 <= List.length asm_rest.
 Proof. vm_compute. split; [reflexivity|repeat constructor]. Qed.
 (* the rest of package asm (asm_rest): four bodies with one construct each that the translator leaves as text *)
 Example undecomposed_rest :
